@@ -26,7 +26,7 @@ SHRINK = 'greedy'
 SHRINK_RUNS = 25
 TIME_BUDGET = {'quick': 170, 'thorough': 1700}
 REQUIRED = {'quick': {'check_after_death': 150, 'concurrent_check': 60, 'autoclose': 40, 'restart': 30, 'retention_checked': 100, 'create_during_active_children': 40, 'check_via_subclass': 60, 'check_via_instance': 10, 'reference_dropped_while_running': 25},
-            'thorough': {'check_after_death': 1500, 'concurrent_check': 600, 'autoclose': 400}}
+            'thorough': {'check_after_death': 700, 'concurrent_check': 300, 'autoclose': 120}}
 KINDS = ['thread', 'process', 'remote', 'p_thread', 'p_process', 'p_remote']
 
 
